@@ -30,6 +30,81 @@ def ident(a, b):
     return None
 
 
+def resolve(ex, t, guard=None):
+    """strip conditionals that are decided by the current path condition"""
+    g = ex.guard if guard is None else guard
+    s = ex.ctx.solver
+    n = 0
+    while z3.is_app_of(t, z3.Z3_OP_ITE) and n < 64:
+        n += 1
+        c = t.arg(0)
+        s.push()
+        if g is not True:
+            s.add(b_term(g))
+        s.add(z3.Not(c))
+        r1 = s.check()
+        s.pop()
+        if r1 == z3.unsat:
+            t = t.arg(1)
+            continue
+        s.push()
+        if g is not True:
+            s.add(b_term(g))
+        s.add(c)
+        r2 = s.check()
+        s.pop()
+        if r2 == z3.unsat:
+            t = t.arg(2)
+            continue
+        break
+    return t
+
+
+def resolve_deep(ex, t, guard=None, memo=None, dec=None):
+    """resolve every conditional inside an arithmetic term under the path condition"""
+    g = ex.guard if guard is None else guard
+    memo = {} if memo is None else memo
+    dec = {} if dec is None else dec
+    k = t.get_id()
+    if k in memo:
+        return memo[k]
+    if z3.is_app_of(t, z3.Z3_OP_ITE):
+        c = t.arg(0)
+        ck = c.get_id()
+        if ck not in dec:
+            s = ex.ctx.solver
+            s.push()
+            if g is not True:
+                s.add(b_term(g))
+            s.add(z3.Not(c))
+            r1 = s.check()
+            s.pop()
+            if r1 == z3.unsat:
+                dec[ck] = True
+            else:
+                s.push()
+                if g is not True:
+                    s.add(b_term(g))
+                s.add(c)
+                r2 = s.check()
+                s.pop()
+                dec[ck] = False if r2 == z3.unsat else None
+        d = dec[ck]
+        if d is True:
+            r = resolve_deep(ex, t.arg(1), g, memo, dec)
+        elif d is False:
+            r = resolve_deep(ex, t.arg(2), g, memo, dec)
+        else:
+            r = z3.If(c, resolve_deep(ex, t.arg(1), g, memo, dec), resolve_deep(ex, t.arg(2), g, memo, dec))
+    elif t.num_args() == 0 or not z3.is_real(t):
+        r = t
+    else:
+        ch = [resolve_deep(ex, x, g, memo, dec) for x in t.children()]
+        r = t.decl()(*ch)
+    memo[k] = r
+    return r
+
+
 class Oracle:
     """uninterpreted predicate / function with congruence established by identity checks"""
 
